@@ -21,6 +21,22 @@ F_FILEDATA = z3.Function("file_data", SeqI, SeqI)    # content of the file named
 F_LSKIP = z3.Function("py_lskip", SeqI, I, I, I)      # first index of the view that strip() keeps
 F_RSKIP = z3.Function("py_rskip", SeqI, I, I, I)      # end index that strip() keeps
 F_DECODE = z3.Function("py_decode", SeqI, SeqI, SeqI, SeqI)
+F_SPLITLINES = z3.Function("py_splitlines", SeqI, z3.SeqSort(SeqI))
+F_JOIN = z3.Function("py_join", SeqI, z3.SeqSort(SeqI), SeqI)
+_isspace_cache = {}
+
+
+def _isspace_ranges(kind):
+    if kind not in _isspace_cache:
+        from vf import rx
+        if kind == "bytes":
+            cps = [c for c in range(256) if bytes([c]).isspace()]
+        else:
+            cps = [c for c in range(0x110000) if chr(c).isspace()]
+        _isspace_cache[kind] = rx._ranges(cps)
+    return _isspace_cache[kind]
+
+
 F_REMATCH = z3.Function("re_matches", I, z3.StringSort(), SeqI, B)
 F_REGROUP = z3.Function("re_group", I, z3.StringSort(), I, SeqI, SeqI)
 F_REGROUPNONE = z3.Function("re_group_is_none", I, z3.StringSort(), I, SeqI, B)
@@ -405,8 +421,34 @@ class SpecLib:
             raise Unsupported("%-formatting of a symbolic value outside an exception message")
         if fmt.pyval is None:
             raise Unsupported("%-formatting with a symbolic format")
-        vals = tuple(conc(x) for x in items)
-        return lift(fmt.pyval % (vals if isinstance(args, VTuple) else vals[0]))
+        try:
+            vals = tuple(conc(x) for x in items)
+            return lift(fmt.pyval % (vals if isinstance(args, VTuple) else vals[0]))
+        except Unsupported:
+            pass
+        # symbolic arguments: only '%s' with str arguments is modelled (concatenation)
+        import re as _r
+        parts = _r.split(r"(%s|%%)", fmt.pyval)
+        if any("%" in p for p in parts if p not in ("%s", "%%")):
+            raise Unsupported("%-format directive other than %s with symbolic arguments")
+        out, k = [], 0
+        for p in parts:
+            if p == "%s":
+                v = items[k]
+                k += 1
+                if isinstance(v, VOpt):
+                    v = ex.deopt(v)
+                if not (isinstance(v, VSeq) and v.kind == "str"):
+                    raise Unsupported("%s of a non-str symbolic value")
+                out.append(v.t)
+            elif p == "%%":
+                out.append(const_seq("str", "%").t)
+            elif p:
+                out.append(const_seq("str", p).t)
+        if k != len(items):
+            ex.raise_(TypeError)
+        self.use("'%s' formatting of str values: concatenation")
+        return VSeq("str", "int", z3.Concat(*out) if len(out) > 1 else out[0])
 
     def inplace(self, ex, box, op, rhs):
         if box.kind == "list" and isinstance(op, ast.Add):
@@ -995,6 +1037,43 @@ class SpecLib:
             return VSeq(x.kind, "int", None, view=(buf, lo, hi))
         M[("bytes", "strip")] = s_strip
         M[("str", "strip")] = s_strip
+
+        def s_splitlines(ex, a, kw):
+            x = a[0]
+            keep = a[1] if len(a) > 1 else kw.get("keepends")
+            if keep is not None and not (isinstance(keep, VBool) and z3.is_false(z3.simplify(keep.t))):
+                raise Unsupported("splitlines(keepends=True)")
+            if x.pyval is not None:
+                return self.make_list(ex, [const_seq(x.kind, p) for p in x.pyval.splitlines()]) if x.pyval.splitlines() \
+                    else VBox("list", VSeq("list", x.kind, z3.Empty(sort_of(("list", x.kind)))))
+            self.use("%s.splitlines(): uninterpreted function py_splitlines (laws are stated where used)" % x.kind)
+            return VBox("list", VSeq("list", x.kind, F_SPLITLINES(x.t)))
+        M[("str", "splitlines")] = s_splitlines
+        M[("bytes", "splitlines")] = s_splitlines
+
+        def s_join(ex, a, kw):
+            sep, it = a[0], self.seqval(a[1])
+            if not (isinstance(it, VSeq) and it.kind == "list"):
+                raise Unsupported("join of %r" % (a[1],))
+            self.use("sep.join(list): uninterpreted function py_join(sep, list)")
+            if it.pyval == [] and it.ety is None:
+                return const_seq(sep.kind, sep.pyval[:0] if sep.pyval is not None else "")
+            return VSeq(sep.kind, "int", F_JOIN(sep.t, it.t))
+        M[("str", "join")] = s_join
+        M[("bytes", "join")] = s_join
+
+        def s_isspace(ex, a, kw):
+            x = a[0]
+            if x.pyval is not None:
+                return VBool(x.pyval.isspace())
+            if ex.decided(x.length() == 1) is not True:
+                raise Unsupported("isspace() of a string that is not known to be one character")
+            self.use("str.isspace() of one character: exact set of code points from the running interpreter")
+            c = x.view[0][x.view[1]] if x.view is not None else x.t[0]
+            rs = _isspace_ranges(x.kind)
+            return VBool(z3.Or(*[(c == lo) if lo == hi else z3.And(c >= lo, c <= hi) for lo, hi in rs]))
+        M[("str", "isspace")] = s_isspace
+        M[("bytes", "isspace")] = s_isspace
 
         def s_decode(ex, a, kw):
             x = a[0]
